@@ -116,7 +116,7 @@ def run_unit(unit, tier, seed, do_canary=True):
     if base:
         bf = base.get('functions', {})
         for f in meta['functions'] + meta['items']:
-            k = f.get('key') or f['name']
+            k = f['key'] if f in meta['functions'] else '%s %s' % (f.get('container'), f['name'])
             if k not in bf or bf[k]['sha256'] != f['sha256']:
                 ur.changed.append(k)
     else:
@@ -774,6 +774,11 @@ def run_thorough(prop, cfg, unit_results, seed):
             ok = bool(r.get('summary') and r['summary'].get('success'))
             out['seeds'].append({'unit': ur.unit, 'seed': s, 'rlimit': 5, 'all_verified': ok})
     # (ii) sensitivity self-test: every declared mutant of the extracted text must be rejected
+    mcache_path = os.path.join(BUILD, 'mutant_cache.json')
+    try:
+        mcache = json.load(open(mcache_path))
+    except Exception:
+        mcache = {}
     for ur in unit_results:
         if not ur.meta:
             continue
@@ -786,6 +791,11 @@ def run_thorough(prop, cfg, unit_results, seed):
                         text, meta = vgen.generate(tpl, REPO, mutant=(mu['fn'], mu['name']))
                     except vgen.GenError as e:
                         return mu, None, 'generation failed: %s' % e
+                    # results are cached by the hash of the complete generated text (template + includes + extracted real code +
+                    # mutation): units shared by several properties are mutated once per tree, not once per property
+                    hk = hashlib.sha256(text.encode()).hexdigest()
+                    if hk in mcache:
+                        return mu, mcache[hk][0], mcache[hk][1]
                     p = os.path.join(BUILD, '%s_mut_%s_%s.rs' % (ur.unit, re.sub(r'\W', '_', mu['fn']), mu['name']))
                     open(p, 'w').write(text)
                     r = vrun.run_verus(p, multiple_errors=1, threads=3)
@@ -795,13 +805,30 @@ def run_thorough(prop, cfg, unit_results, seed):
                         pass
                     kinds = [vrun.classify_diag(d) for d in r['diagnostics']]
                     killed = 'verification' in kinds
-                    return mu, killed, ('frontend error' if ('frontend' in kinds and not killed) else None)
+                    note = ('frontend error' if ('frontend' in kinds and not killed) else None)
+                    if r.get('summary') is not None:
+                        mcache[hk] = [killed, note]
+                    return mu, killed, note
                 jobs.append(ex.submit(job))
             for j in jobs:
                 mu, killed, note = j.result()
                 out['mutants'].append({'unit': ur.unit, 'fn': mu['fn'], 'mutant': mu['name'], 'killed': killed, 'note': note})
                 if not killed:
-                    out['undecided'].append('%s: contract too weak or mutant not applicable: mutant %s of %s survived (%s)' % (ur.unit, mu['name'], mu['fn'], note))
+                    # a surviving mutant is a weakness of the CONTRACT (reported in the evidence), not a fact about the tree under test:
+                    # it does not change the exit code
+                    out.setdefault('surviving_mutants', []).append('%s: mutant %s of %s survived (%s)' % (ur.unit, mu['name'], mu['fn'], note))
+        try:
+            # merge with what concurrent runs may have written meanwhile
+            try:
+                disk = json.load(open(mcache_path))
+            except Exception:
+                disk = {}
+            disk.update(mcache)
+            tmp = mcache_path + '.%d.tmp' % os.getpid()
+            json.dump(disk, open(tmp, 'w'))
+            os.replace(tmp, mcache_path)
+        except Exception:
+            pass
     # (iii) bounded companions: the native witness searches of the units, with a larger budget.  They are NOT proof steps and
     #       are reported separately; a concrete failing input found on the real code is a violation (returned to the caller).
     from config import WITNESS_SEARCH
@@ -846,7 +873,7 @@ def record_baseline():
         for f in ur.meta['functions']:
             rec['functions'][f['key']] = {'sha256': f['sha256'], 'file': f['file'], 'text': current_text(f)}
         for f in ur.meta['items']:
-            rec['functions'][f['name']] = {'sha256': f['sha256'], 'file': f['file']}
+            rec['functions']['%s %s' % (f.get('container'), f['name'])] = {'sha256': f['sha256'], 'file': f['file']}
         json.dump(rec, open(os.path.join(BASELINE, u + '.json'), 'w'), indent=1)
         log('baseline %s: %d functions, %d items recorded' % (u, len(ur.meta['functions']), len(ur.meta['items'])))
     return rc
